@@ -4,7 +4,7 @@ into /verif/seeded/<Cnn>-<N>/ (patch.diff, demonstration, demo_cmd.txt, meta.jso
 import json, os, shutil, sys
 pid, n = sys.argv[1], sys.argv[2]
 src = "/tmp/seed_%s/SEED/%s" % (pid, n)
-dst = "/verif/seeded/%s-%s" % (pid, n)
+dst = "/verif/seeded/%s-%s" % (pid, os.environ.get("KEEP_AS", n))
 shutil.rmtree(dst, ignore_errors=True)
 os.makedirs(dst)
 for f in os.listdir(src):
@@ -26,7 +26,7 @@ vf = "/tmp/x/vs_%s_%s.json" % (pid, n)
 if os.path.exists(vf):
     v = json.load(open(vf))
     ver = {k: v.get(k) for k in ("patch_applies", "builds", "passes_without_patch", "fails_with_patch", "baseline_missing", "tests")}
-out = dict(property=pid, seed="%s-%s" % (pid, n), summary=meta.get("summary"), needs_to_manifest=meta.get("needs_to_manifest"),
+out = dict(property=pid, seed="%s-%s" % (pid, os.environ.get("KEEP_AS", n)), summary=meta.get("summary"), needs_to_manifest=meta.get("needs_to_manifest"),
            author="independent sub-agent given only the property text and a scratch worktree",
            confirmed_by_me=dict(how="tools/verify_seed.py in a scratch copy of /repo HEAD (patch applies, builds, demonstration passes without / fails with the patch, 131 baseline tests pass with it)" + (" ; " + sys.argv[3] if len(sys.argv) > 3 else ""), **ver),
            agent_meta=meta)
